@@ -2138,5 +2138,5 @@ PROPS["C17"] = {"theorems": ['C17_keyword_table', 'C17_structural_table', 'C17_l
                 "explanation": "oracle: the JavaScript constructors of the declared type (TypeSpec.ctorsOfType; any/unknown = no check) = those of the emitted `type`, Boolean/String order kept"}
 PROPS["C18"] = {"theorems": ['C18_literal_as_is', 'C18_expression_through_factory', 'C18_function_prop_gets_value', 'C18_function_prop_gets_written_function', 'C18_shorthand', 'C18_getter', 'C18_method_is_the_function', 'C18_key_spellings_match', 'C18_dynamic_forms', 'C18_one_dynamic_entry_suffices', 'C18_dynamic_goes_through_mergeDefaults', 'C18_no_default_no_entry', 'C18_function_flag_is_vues', 'C18_union_with_function_is_not_function_prop'], "cases": c18_cases, "post": c18_post, "nontrivial": _has_dc,
                 "explanation": "oracle: every statically written default reaches its prop's `default` as the value itself (literals, methods, Function-typed props) or as a factory returning it; non-analysable defaults go through mergeDefaults unchanged"}
-PROPS["C19"] = {"theorems": ['C19_no_second_parameter', 'C19_unannotated_second_parameter', 'C19_other_annotation', 'C19_not_a_function', 'C19_literal_union_expansion', 'C19_literal_union_through_alias', 'C19_call_signatures', 'C19_function_type', 'C19_property_syntax'], "cases": c19_cases, "nontrivial": _has_dc,
+PROPS["C19"] = {"theorems": ['C19_no_second_parameter', 'C19_unannotated_second_parameter', 'C19_other_annotation', 'C19_not_a_function', 'C19_literal_union_expansion', 'C19_literal_union_through_alias', 'C19_call_signatures', 'C19_function_type', 'C19_property_syntax', 'C19_refines_spec', 'C19_emits_option_is_spec', 'literalStrings_le'], "extra_modules": ["VueJsx.Props.C19c"], "cases": c19_cases, "nontrivial": _has_dc,
                 "explanation": "oracle: the event names the SetupContext<E> annotation declares (TypeSpec.emitsOfType, as a set) = the injected emits; no emits without such an annotation"}
